@@ -229,6 +229,13 @@ def step_case(rng, cfgname, thumb, code, mode=None, it=None, e=None, code_base=N
             st['sctlr'] |= 1 | (rng.getrandbits(1) << 28) | (rng.getrandbits(1) << 29)
         if cfg.get('have_virt_ext'):
             st['hcr'] = rng.getrandbits(28) & ~1 if rng.random() < 0.5 else 0
+            if rng.random() < 0.25:
+                st['hcr'] |= 1                      # HCR.VM: stage 2 translation (reference: excluded; totality / confinement checks still apply)
+                st['vttbr'] = DATA[0] | rng.getrandbits(3) << 3
+                sl0 = rng.getrandbits(1)                 # valid combinations only: SL0=0 -> T0SZ in -2..7, SL0=1 -> T0SZ in -8..1 (else UNPREDICTABLE)
+                t0sz = rng.randrange(-2, 8) if sl0 == 0 else rng.randrange(-8, 2)
+                st['vtcr'] = (rng.getrandbits(6) << 8) | (sl0 << 6) | ((1 if t0sz < 0 else 0) << 4) | (t0sz & 15)
+                st['vttbr'] = DATA[0] & ~0xFF
             st['hsctlr'] = (rng.getrandbits(1) << 30) | (rng.getrandbits(1) << 25) | (rng.getrandbits(1) << 1)
             st['hvbar'] = 0x8000
             st['hcptr'] = rng.getrandbits(14)
